@@ -54,6 +54,7 @@ type lhParams struct {
 	k, alpha, beta int
 	mode           ModeOpt
 	opts           []Option
+	hostOpts       func(h host.Host) []Option // options that need the host
 }
 
 var lhSelf = kid.Peer("0110", 0)
@@ -74,6 +75,9 @@ func newLH(x *vmc.X, w *sim.World, p lhParams) (*lh, error) {
 		}),
 	}
 	opts = append(opts, p.opts...)
+	if p.hostOpts != nil {
+		opts = append(opts, p.hostOpts(l.h)...)
+	}
 	d, err := New(l.h, opts...)
 	if err != nil {
 		l.h.Close()
